@@ -85,7 +85,7 @@ def run(ctx):
     ctx.stage("exact-zero-division", cases=len(zc), rejected=len(badz))
     ctx.assumptions += ["error kinds are compared as classes (message text and the Type named in a type error are not)",
                         "faults are injected only in sequenced positions, so the effects completed before the fault are determined by R7RS"]
-    return ctx.finish(rule="replay: Programs!FaultFamily (10 faulting operations x 11 calling contexts x position) compared form by form incl. the probes after the fault; "
+    return ctx.finish(rule="replay: Programs!FaultFamily (12 faulting operations x 13 calling contexts x position) compared form by form incl. the probes after the fault; "
                            "validate: seeded valid random programs with one injected fault checked by MachineTrace.tla; non-trivial = distinct program")
 
 
